@@ -1479,6 +1479,16 @@ func isSkipdirsTest(c *ssa.Call) bool {
 	if cn != "backend.contains" && !strings.HasPrefix(cn, "slices.Contains") {
 		return false
 	}
+	// slices.ContainsFunc(segments, func(dir) bool { return <skipdirs test>(dir) })
+	if strings.HasPrefix(cn, "slices.ContainsFunc") && len(c.Call.Args) == 2 {
+		for _, g := range funcValuesOf(c.Call.Args[1]) {
+			for _, c2 := range callsIn(g) {
+				if cc, ok := c2.(*ssa.Call); ok && isSkipdirsTest(cc) {
+					return true
+				}
+			}
+		}
+	}
 	for _, a := range c.Call.Args {
 		for _, rt := range Origins(a, nil) {
 			if (rt.Kind == "param" || rt.Kind == "freevar") && rt.Desc == "skipdirs" {
@@ -1530,4 +1540,31 @@ func multipartETagSuffix(p *Program, r *Report, rule string) {
 		}
 	}
 	r.Check(okLen, rule, "backend.GetMultipartMD5/suffix<-len(parts)", p.Pos(gm.Pos()), "ETag suffix is the number of parts", "the multipart ETag suffix is not the number of listed parts")
+	// every way the function returns: each returned string is built from the number of parts (a special case
+	// for one part, or for none, that leaves the suffix out is not the S3 multipart ETag)
+	for i, ret := range returnsOf(gm) {
+		if len(ret.Results) == 0 {
+			continue
+		}
+		for j, lf := range valueLeaves(ret.Results[0], ret.Block()) {
+			has := false
+			for _, rt := range Origins(lf.val, &originOpts{extra: map[string][]int{"strconv.Itoa": nil, "strconv.FormatInt": nil}}) {
+				if (rt.Kind == "call" || rt.Kind == "via") && rt.Call != nil {
+					switch rt.Desc {
+					case "fmt.Sprintf":
+						for _, a := range callArgs(rt.Call)[1:] {
+							if lenOfParts(a) {
+								has = true
+							}
+						}
+					case "strconv.Itoa", "strconv.FormatInt":
+						if lenOfParts(callArgs(rt.Call)[0]) {
+							has = true
+						}
+					}
+				}
+			}
+			r.Check(has, rule, "backend.GetMultipartMD5/return#"+itoa(i+1)+"."+itoa(j+1)+":suffix", p.Pos(ret.Pos()), "this result carries the number of parts", "one way GetMultipartMD5 returns does not put the number of parts into the ETag (a special case, e.g. for a single part): an object completed that way has no S3 multipart ETag")
+		}
+	}
 }
